@@ -571,6 +571,20 @@ EXTERNALS = ["https://example.com/a?b=1&c=2", "file:///C:/x%20y.pptx", "../outsi
 XML_CLASS = {"pres", "slide", "layout", "master", "core", "chart"}   # registered XmlPart classes
 
 
+_LIVE_TYPES = []
+
+
+def live_part_types():
+    """[(content type, loads as an XML part)] for every key of the live PartFactory.part_type_for, sorted"""
+    if not _LIVE_TYPES:
+        import pptx  # noqa: F401  (fills the table)
+        from pptx.opc.package import PartFactory, XmlPart
+
+        for k, cls in sorted(PartFactory.part_type_for.items()):
+            _LIVE_TYPES.append((str(k), isinstance(cls, type) and issubclass(cls, XmlPart)))
+    return _LIVE_TYPES
+
+
 def ascii_upper(s):
     return "".join(c.upper() if c.isascii() else c for c in s)
 
@@ -660,8 +674,14 @@ def gen_package(rng, malformed=False):
         used_lower.add(name.lower())
         kind = rng.choice(EXT_TYPES[ext][:3] if rng.random() < 0.7 else EXT_TYPES[ext])
         payload = rand_xml(rng) if kind in XML_CLASS else rand_bytes(rng)
+        ct = CT_X[kind]
+        if rng.random() < 0.25:
+            # the loader dispatches on the content type: every type REGISTERED in the live part-class table (aliases
+            # included) is a code path of its own, whatever the extension of the part
+            ct, is_xml = rng.choice(live_part_types())
+            payload = rand_xml(rng) if is_xml else rand_bytes(rng)
         names.append(name)
-        parts[name] = {"ct": CT_X[kind], "payload": payload, "rels": [], "ext": e}
+        parts[name] = {"ct": ct, "payload": payload, "rels": [], "ext": e}
     # relationships: the root plus every part
     def mk_rels(src, k):
         src_dir = "/" if src == "/" else posixpath.split(src)[0]
